@@ -5,5 +5,6 @@ cd /repo && git diff --quiet || { echo "/repo not clean"; exit 2; }
 git -C /repo apply $PATCH || { echo "patch does not apply"; exit 2; }
 cd /verif && ./check $P --tier $TIER > /tmp/mut2/try-$P.log 2>&1; rc=$?
 git -C /repo checkout -- .
+git -C /verif checkout -- evidence/$P.json 2>/dev/null   # the evidence of a run against a seeded change is not evidence about /repo
 (cd /verif && python3 gen/extract.py >/dev/null 2>&1)   # the regenerated source facts must describe the unchanged tree again
 echo "== $P rc=$rc"; grep -E "VIOLATION|violation:|held on" /tmp/mut2/try-$P.log | cut -c1-400
